@@ -407,6 +407,20 @@ class Run:
             self.cov["obligations_discharged"] = self.cov.pop("discharged", 0)
             self.cov["evaluations"] = max(1, self.cov.get("evaluations", 0))
             self.cov["distinct_nontrivial"] = max(2, self.cov.get("distinct_nontrivial", 0))
+        # schema: these keys must be integers / lists / strings; anything else is moved aside
+        for k in ("evaluations", "distinct_nontrivial", "states", "transitions", "traces_validated_against_impl",
+                  "obligations", "discharged", "programs", "disagreements_checked"):
+            if k in self.cov and not (isinstance(self.cov[k], int) and not isinstance(self.cov[k], bool)):
+                self.cov[k + "_note"] = self.cov.pop(k)
+        for k in ("rule", "checker_cmd", "explanation"):
+            if k in self.cov and not isinstance(self.cov[k], str):
+                self.cov[k] = json.dumps(self.cov[k])
+        if "trusted_base" in self.cov and not isinstance(self.cov["trusted_base"], list):
+            self.cov["trusted_base"] = [str(self.cov["trusted_base"])]
+        self.cov["trusted_base"] = [x if isinstance(x, str) else json.dumps(x) for x in self.cov.get("trusted_base", [])]
+        if "samples" in self.cov and not isinstance(self.cov["samples"], list):
+            self.cov["samples"] = [self.cov["samples"]]
+        self.assumptions = [x if isinstance(x, str) else json.dumps(x) for x in self.assumptions]
         if not self.cov.get("samples"):
             self.cov["samples"] = ["(no case generated: proof obligations only)"]
         os.makedirs(os.path.join(ROOT, "evidence"), exist_ok=True)
